@@ -257,7 +257,8 @@ def run_shard(ctx):
             if i % ctx.nshards == ctx.shard:
                 run_case(ctx, mods, label + "+read-first", obj, texts[i % len(texts)], bool(i % 2), touch_first=touch)
     # other pickle protocols of torch.save, incl. model pickles large enough to be split over several FRAMEs
-    big = [("big_pickle_few_tensors", {"w": torch.ones(2, 2), "meta": {("key_%05d" % k) * 4: k for k in range(4000)}}),
+    big = [("model_pickle_over_1MiB", {"w": torch.ones(2, 2), "meta": {("key_%06d_" % k) * 12: k for k in range(11000)}}),
+           ("big_pickle_few_tensors", {"w": torch.ones(2, 2), "meta": {("key_%05d" % k) * 4: k for k in range(4000)}}),
            ("many_small_tensors", {"t%d" % k: torch.full((1,), float(k)) for k in range({"quick": 1300, "thorough": 2600}[ctx.tier])})]
     small = list(torchfiles.models(torch, asm.rng_for(ctx.seed, "c16proto"), 0))
     for label, obj in big + small:
